@@ -182,7 +182,7 @@ def query_parameters(ctx, mf, reg, tier):
 def query_frame(ctx, mf, reg):
     be = mir.BVBackend()
     make = mf.find(r"frame/mod\.rs[^>]*>::make\(_1: &R")
-    qser = mf.find(r"query\.rs:46[^>]*>::serialize\(_1: &frame::request::query::Query")
+    qser = mf.find(r"query\.rs[^>]*>::serialize\(_1: &frame::request::query::Query<")
     F = "SerializedRequest::make::<Query>, Query::serialize, QueryParameters::serialize, types::write_long_string [scylla-cql/src/frame/mod.rs, request/query.rs]"
     ro = reg.get("RequestOpcode")
     goals, inputs, pre_all = [], [], []
